@@ -114,7 +114,7 @@ def run_history_equiv(ck, tier):
     ck.obligation(f'bmc-k{k}: same responses with and without the eviction layer while the limit is out of reach', cs, z3.Not(z3.Or(differ)), {}, on_w, small)
 
 
-def run_headroom(ck, tier):
+def run_headroom(ck, tier, cfg=None):
     """links the one-step equivalence (which needs limit - usage >= 2^33) to whole histories: along every k-command history
     on 2 keys behind the eviction layer the accounted usage stays below U_k (no wrap, no runaway), so with limit >= U_k + 2^33
     the one-step premise holds at every step and the eviction layer never acts"""
@@ -122,13 +122,18 @@ def run_headroom(ck, tier):
     from mirse.models.bytesm import vlen, visnum
     L = PC.L
     K = 2
-    k = 5 if tier == 'quick' else 6
+    if cfg is None:
+        # depth on the narrow menu, width at a smaller depth (depth 6 on the wide menu is left undecided by both solvers)
+        for c in ([(5, ['set', 'get', 'delete', 'flush'])] if tier == 'quick' else
+                  [(6, ['set', 'get', 'delete', 'flush']), (4, ['set', 'get', 'delete', 'flush', 'append', 'add'])]):
+            run_headroom(ck, tier, c)
+        return
+    k, cmds = cfg
     U = (k + 1) * ((k + 1) * 4096 + 4096)
-    cmds = ['set', 'get', 'delete', 'flush'] if tier == 'quick' else ['set', 'get', 'delete', 'flush', 'append', 'add']
     ck.E.loop_bound = 6
     B = bmc.System(ck, K, cmds, policy='random', memory_limit=L,
                    extra_assume=lambda c, i: PC.handler_constraints(c, i) + [z3.Not(visnum(i.val)), z3.ULE(vlen(i.val), 4096), z3.ULT(L, 1 << 40), z3.UGE(L, BV(U + (1 << 33)))])
-    tr, cs = B.unroll(k, tag='~h')
+    tr, cs = B.unroll(k, tag=f'~h{k}')
     bad = z3.Or([z3.UGT(tr.S[t].usage, BV(U)) for t in range(1, k + 1)] + [tr.evict[t] for t in range(0)])
 
     def on_w(m, where):
@@ -139,9 +144,12 @@ def run_headroom(ck, tier):
         desc = f"limit {mval(m, L)}: {d} | accounted usage after each command {us} (bound {U})"
         return (True if any(u is not None and u > U for u in us) else None), desc, sc
     small = [z3.ULE(L, 1 << 35), z3.ULE(tr.S[0].now, 100)] + [z3.ULE(vlen(tr.I[t].val), 16) for t in range(k)]
-    ck.bounds['headroom'] = f'{k} commands from {cmds} on {K} keys, values <= 4096 bytes: accounted usage <= {U}'
-    ck.cover('headroom: histories exist', cs)
-    ck.obligation(f'bmc-k{k}: the accounted usage stays in reach of the bytes sent (the limit stays out of reach)', cs, z3.Not(bad), {}, on_w, small)
+    ck.bounds[f'headroom-k{k}'] = f'{k} commands from {cmds} on {K} keys, values <= 4096 bytes: accounted usage <= {U}'
+    ck.cover(f'headroom: histories exist (k={k})', cs)
+    # one query per step (the disjunction over all steps is left undecided at k=6)
+    for t in range(1, k + 1):
+        ck.obligation(f'bmc-k{k}: the accounted usage stays in reach of the bytes sent (the limit stays out of reach), after step {t}', cs,
+                      z3.ULE(tr.S[t].usage, BV(U)), {}, on_w, small)
 
 
 def run(tier, seed, replay_path=None):
